@@ -35,7 +35,7 @@ def draw_layer_case(data, d_choices=(2, 2, 3), symmetric_only=False, unit_stride
     else:
         kinds = ["TORUS", "SAME", "VALID", "int", "explicit_sym", "None"] + ([] if symmetric_only else ["explicit_asym"])
     opts = convgen.draw_conv_options(data, d, symmetric_only=symmetric_only, unit_stride=unit_stride, pad_kinds=kinds,
-                                     fixed_fshape=[M] * d, max_extra=2, max_ext=5 if d == 2 else 3, max_stride=2)
+                                     fixed_fshape=[M] * d, max_extra=2, max_ext=5 if d == 2 else 4, max_stride=2)
     if isinstance(opts["is_torus"], bool):
         opts["is_torus"] = [opts["is_torus"]] * d  # multi-images carry tuples
     bias = data.draw(st.sampled_from([0, 1, 2, 3, 4]), label="bias_mode")
